@@ -280,8 +280,14 @@ impl<'a> Gen<'a> {
 
     fn hunks(&mut self, p: &GenParams, section: usize, prefix_len: usize, only: Option<LineKind>, ends_changed: bool) {
         let nh = if only.is_some() { 1 } else { self.rng.range(1, p.max_hunks.max(1)) };
-        let mut old_start = self.rng.range(1, 30);
-        let mut new_start = old_start;
+        // mostly near the top of the file; sometimes far down (line numbers of 5, 6 or 7 digits
+        // widen the line-number columns)
+        let mut old_start = match self.rng.below(6) {
+            0 => self.rng.range(9_990, 12_000),
+            1 => self.rng.range(99_000, 1_200_000),
+            _ => self.rng.range(1, 30),
+        };
+        let mut new_start = old_start + self.rng.range(0, 3);
         for h in 0..nh {
             // header is pushed first with placeholder counts, fixed up after the body
             let idx = self.lines.len();
